@@ -975,9 +975,15 @@ func callBuiltin(caller *frame, fn *ssa.Builtin, args []value) value {
 		if len(args) == 1 {
 			return args[0]
 		}
+		var elem types.Type
+		if sig, ok := fn.Type().(*types.Signature); ok && sig.Params().Len() > 0 {
+			if st, ok := sig.Params().At(0).Type().Underlying().(*types.Slice); ok {
+				elem = st.Elem()
+			}
+		}
 		switch s := args[1].(type) {
 		case string, symString:
-			return append(args[0].([]value), strBytes(s)...)
+			return appendValues(args[0].([]value), strBytes(s), elem)
 		}
 		// append([]T, ...[]T) []T
 		// Slice elements are memory cells: aggregate values must not share
@@ -990,7 +996,10 @@ func callBuiltin(caller *frame, fn *ssa.Builtin, args []value) value {
 			}
 			src = cp
 		}
-		return append(args[0].([]value), src...)
+		if len(src) == 0 {
+			return args[0]
+		}
+		return appendValues(args[0].([]value), src, elem)
 
 	case "copy": // copy([]T, []T) int or copy([]byte, string) int
 		src := args[1]
